@@ -9,6 +9,8 @@ NOTE = ("Trusted: Coq 8.16.1 kernel + vm_compute; harness/gen_tables.py and the 
         "Biopython/re/fs behaviour as modelled (see DESIGN.md section 7). No axioms (Print Assumptions: closed).")
 
 CLAIMED = {
+ "C14": "Theorems for all sequences, all coordinates (read modulo n) and all rotations: rc is an involution, the feature table of the reverse complement is a permutation of the flipped features, each part lands on the opposite strand, covers the mirror positions and denotes the reverse complement, flip is an involution, rc commutes with rotation; SeqRecord.reverse_complement/_flip as modelled are tied by exact comparison of (sequence, ordered feature table, tracks) under composed rc/>>/<< operations; the object-level clause (result is a CircularRecord) is decided by the oracle.",
+ "C15": "Theorems for every alphabet and length: circular membership iff (no longer than the record and occurs in some rotation), hence rotation-independent; the TypeError/ValueError/plain-slice/deep-copy clauses are object-protocol facts modelled as constant outcomes and decided by exhaustive correspondence over operand kinds, topology spellings, slice bounds and copy-mutation probes.",
  "C13": "Unbounded theorems (all lengths, all k in Z, all compositions, all feature shapes and tracks) on the model of >>/<<; the model is tied to record.py by differential correspondence evaluated by vm_compute on an exhaustive small scope (every length x every k in [-2n,2n]) plus random cases, and a direct oracle restates the property on the implementation.",
  "C16": "Letter table proved exhaustively by reflection over the table regenerated from regex.py; leftmost-start, one-turn window and group-text theorems for every flat pattern, target and range; soundness/completeness of the matcher w.r.t. a declarative semantics; CPython's re on the fragment is tied by correspondence (all 450 letter pairs, all short targets, random patterns).",
 }
